@@ -24,9 +24,16 @@ MVerdict(o) ==
        renamable |-> RelabelOK(g0, m),
        atoms  |-> g1.el = want.el,
        bonds  |-> DOMAIN g1.bd = DOMAIN want.bd /\ \A b \in DOMAIN g1.bd : g1.bd[b].role = want.bd[b].role,
-       stereo |-> SameDescrMap(g1.ast, want.ast) /\ SameDescrMap(g1.bst, want.bst)
-                  /\ SameChangeMap(g1.ach, want.ach) /\ SameChangeMap(g1.bch, want.bch),
-       valid  |-> StereoValid(g1) /\ ~Dangling(g1)]
+       \* mode 0: everything; mode 1: atom-centred descriptors only (C13 without regenerated bond orders);
+       \* mode 2: atom-centred descriptors and the bond descriptors of the bonds listed in o.keep
+       stereo |-> /\ SameDescrMap(g1.ast, want.ast)
+                  /\ CASE o.mode = 0 -> SameDescrMap(g1.bst, want.bst)
+                                         /\ SameChangeMap(g1.ach, want.ach) /\ SameChangeMap(g1.bch, want.bch)
+                       [] o.mode = 1 -> TRUE
+                       [] OTHER -> LET K == { {o.keep[i][1], o.keep[i][2]} : i \in DOMAIN o.keep } IN
+                                   \A b \in K : b \in DOMAIN want.bst =>
+                                        b \in DOMAIN g1.bst /\ DEqStrict(g1.bst[b], want.bst[b]),
+       valid  |-> o.mode # 0 \/ (StereoValid(g1) /\ ~Dangling(g1))]
 MGood(v) == v.renamable /\ v.atoms /\ v.bonds /\ v.stereo /\ v.valid
 
 VARIABLES mshard, midx
